@@ -79,6 +79,60 @@ theorem valid_path (i : Image) (h : i.validate = .ok ()) : ∃ p, i.path = .str 
     | str p => exact ⟨p, rfl⟩
     | _ => exact absurd h1 (by intro h; cases h)
 
+/-! ### the four integer attributes (F22 repair)
+
+`_assert_type` accepts a bool only where `bool` is listed (`Gen.assertTypeBoolStrict`, translated from the body of the
+method), so a validated image holds ints - not bools - in `mtime`, `size`, `disc_number`, `disc_count`: what used to be
+the hypothesis `ProperInts` of the C02 theorems now follows from `validate = ok`.  With the bare isinstance loop
+(flag `false`) these four lemmas do not check. -/
+
+theorem rule_mtime_mem : Rule.type ['m','t','i','m','e'] [.int] ∈ Gen.rules_images_Image.flat := by
+  simp only [Gen.rules_images_Image, MethodRules.flat, List.flatMap_cons, List.flatMap_nil, List.cons_append, List.nil_append, List.append_nil]
+  find_mem
+
+theorem rule_size_mem : Rule.type ['s','i','z','e'] [.int] ∈ Gen.rules_images_Image.flat := by
+  simp only [Gen.rules_images_Image, MethodRules.flat, List.flatMap_cons, List.flatMap_nil, List.cons_append, List.nil_append, List.append_nil]
+  find_mem
+
+theorem rule_disc_number_mem : Rule.type ['d','i','s','c','_','n','u','m','b','e','r'] [.int] ∈ Gen.rules_images_Image.flat := by
+  simp only [Gen.rules_images_Image, MethodRules.flat, List.flatMap_cons, List.flatMap_nil, List.cons_append, List.nil_append, List.append_nil]
+  find_mem
+
+theorem rule_disc_count_mem : Rule.type ['d','i','s','c','_','c','o','u','n','t'] [.int] ∈ Gen.rules_images_Image.flat := by
+  simp only [Gen.rules_images_Image, MethodRules.flat, List.flatMap_cons, List.flatMap_nil, List.cons_append, List.nil_append, List.append_nil]
+  find_mem
+
+/-- a passed `_assert_type(f, [int])` under the strict shape: the value is an int proper -/
+theorem type_int_strict (o : Obj) (f : Str) (h : Rule.check customs o (.type f [.int]) = .ok ()) : ∃ n, o.get f = .int n := by
+  have h1 := Rule.check_type_ok h
+  cases hv : o.get f with
+  | int n => exact ⟨n, rfl⟩
+  | _ => rw [hv] at h1; cases h1
+
+theorem valid_mtime (i : Image) (h : i.validate = .ok ()) : ∃ n, i.mtime = .int n := by
+  rw [validate_unfold] at h
+  have h1 := type_int_strict _ _ ((runRules_ok_iff _ _ _).mp h _ rule_mtime_mem)
+  cases i; exact h1
+
+theorem valid_size (i : Image) (h : i.validate = .ok ()) : ∃ n, i.size = .int n := by
+  rw [validate_unfold] at h
+  have h1 := type_int_strict _ _ ((runRules_ok_iff _ _ _).mp h _ rule_size_mem)
+  cases i; exact h1
+
+theorem valid_disc_number (i : Image) (h : i.validate = .ok ()) : ∃ n, i.disc_number = .int n := by
+  rw [validate_unfold] at h
+  have h1 := type_int_strict _ _ ((runRules_ok_iff _ _ _).mp h _ rule_disc_number_mem)
+  cases i; exact h1
+
+theorem valid_disc_count (i : Image) (h : i.validate = .ok ()) : ∃ n, i.disc_count = .int n := by
+  rw [validate_unfold] at h
+  have h1 := type_int_strict _ _ ((runRules_ok_iff _ _ _).mp h _ rule_disc_count_mem)
+  cases i; exact h1
+
+/-- **`ProperInts` follows from validation** (F22 repaired) -/
+theorem valid_properInts (i : Image) (h : i.validate = .ok ()) : Spec.ProperInts i :=
+  ⟨valid_mtime i h, valid_size i h, valid_disc_number i h, valid_disc_count i h⟩
+
 theorem valid_merges (i : Image) (h : i.validate = .ok ()) :
     (i.additional_variants.truthy && !i.unified.truthy) = false := by
   rw [validate_unfold] at h
